@@ -272,6 +272,8 @@ func (m *c13Model) outcome(p *c13UPath) string {
 			return "exit-nil"
 		case p.herr != nil && e.key == p.herr.key:
 			return "pass"
+		case e.op == c13OpTypedNil:
+			return "typed-nil"
 		}
 		if _, _, ok := m.typedErr(e); ok {
 			return "typed"
@@ -288,6 +290,7 @@ func c13OutcomeText(o string) string {
 		"bad-list": "rewrites the action list", "opaque-action": "appends an action that is not an osm.Action literal",
 		"exit-nil": "leaves annotate.Change without an error", "other-error": "returns some other error", "break": "leaves the loop by break",
 		"panic": "panics", "end": "ends the function",
+		"typed-nil": "returns a nil pointer of a concrete error type converted to `error`, which is a NON-nil error (the interface holds the type) and aborts annotate.Change",
 	}[o]
 }
 
@@ -317,17 +320,25 @@ func (m *c13Model) quality(p *c13UPath, class string) string {
 	case "update":
 		al, _ := m.actionLit(p.appended[0])
 		want := m.actVals[el.sec]
-		var found *c13Term
+		var found []*c13Term
 		if p.srch != nil && p.srch.idiom != "" {
 			found = p.srch.found(m.x)
+		}
+		holdsFound := false
+		for _, f := range found {
+			holdsFound = holdsFound || m.holds(al.old, el.kind, f)
+		}
+		var shown *c13Term
+		if len(found) > 0 {
+			shown = found[0]
 		}
 		switch {
 		case al.typ == nil || !c13IsString(al.typ, want):
 			return fmt.Sprintf("an element of change.%s gets action type `%s`, not %q", c13Secs[el.sec].Field, m.show(al.typ), want)
 		case al.osm != nil || al.extra != "" || al.old == nil || al.new == nil:
 			return fmt.Sprintf("a modify/delete action must carry exactly Old and New: `%s`", m.show(p.appended[0]))
-		case found == nil || !m.holds(al.old, el.kind, found):
-			return fmt.Sprintf("Old holds `%s`, not the history entry selected by the scan (%s)", m.show(al.old), m.show(found))
+		case !holdsFound:
+			return fmt.Sprintf("Old holds `%s`, not the history entry selected by the scan (%s)", m.show(al.old), m.show(shown))
 		case !m.holds(al.new, el.kind, el.elem):
 			return fmt.Sprintf("New holds `%s`, not the change element", m.show(al.new))
 		}
@@ -431,6 +442,8 @@ func (m *c13Model) canon(t *c13Term, kind int, names map[string]string, d int) s
 		return "idx"
 	case c13OpRef:
 		return "<object>"
+	case c13OpTypedNil:
+		return "typednil " + m.canonType(t.typ)
 	}
 	return t.op + " " + t.name + "(" + list(t.args) + ")"
 }
